@@ -99,6 +99,69 @@ func projOS(item, canon string) string {
 	return canon
 }
 
+// projPosix: a canonical result in the outcome language of the POSIX specification — the Go-side
+// twin of Model/Posix.v mproj followed by ocaml/drv_c01.ml canon_pout (outcome class, handle, kind and
+// size of Stat, bytes + EOF flag, count / offset, names of a directory page)
+func projPosix(item, canon string) string {
+	fl := strings.Fields(item)
+	opname := opName(item)
+	cls := func(c string) string {
+		switch c {
+		case "NotExist", "Exist", "Closed", "NotDir":
+			return c
+		}
+		return "Other"
+	}
+	eof := func(c string) bool { return c == "EOF" || c == "UnexpectedEOF" }
+	parts := strings.Split(canon, ":")
+	switch parts[0] {
+	case "noslot", "handle", "ok":
+		return parts[0]
+	case "name":
+		return "ok"
+	case "panic":
+		return "fail:Other"
+	case "err":
+		return "fail:" + cls(parts[1])
+	case "info":
+		f := strings.Split(parts[1], "|")
+		return fmt.Sprintf("stat:%s|%s", f[1], f[2])
+	case "data":
+		if parts[2] == "-" {
+			return "bytes:" + parts[1] + ":-"
+		}
+		if eof(parts[2]) {
+			flag := "eof"
+			if (opname == "HRead" || opname == "HReadAt") && len(fl) > 4 && atoi(fl[4]) <= 0 {
+				flag = "-"
+			}
+			return "bytes:" + parts[1] + ":" + flag
+		}
+		return "fail:" + cls(parts[2])
+	case "count", "pos":
+		if parts[2] == "-" {
+			return "num:" + parts[1]
+		}
+		return "fail:" + cls(parts[2])
+	case "infos", "names":
+		var names []string
+		if parts[1] != "" {
+			for _, e := range strings.Split(parts[1], ",") {
+				names = append(names, strings.SplitN(e, "|", 2)[0])
+			}
+		}
+		sort.Strings(names)
+		switch {
+		case parts[2] == "-":
+			return "names:" + strings.Join(names, ",") + ":-"
+		case eof(parts[2]):
+			return "names:" + strings.Join(names, ",") + ":eof"
+		}
+		return "fail:" + cls(parts[2])
+	}
+	return canon
+}
+
 // sweep: the visible tree through the API: Stat, ReadDir (sorted), ReadFile of every path
 func sweep(fs afero.Fs, explicit map[string]bool) string {
 	var out []string
@@ -169,7 +232,7 @@ func runOnOS(items []string, explicit map[string]bool) ([]string, string) {
 	return outs, sw
 }
 
-func c01Case(c *Ctx, id string, items []string, wellFormed bool, explicit map[string]bool) {
+func c01Case(c *Ctx, id string, items []string, wellFormed bool, explicit map[string]bool, generated bool) {
 	// (1) implementation + model
 	in := NewInterp("mem")
 	c.Case("case %s mem", id)
@@ -197,6 +260,27 @@ func c01Case(c *Ctx, id string, items []string, wellFormed bool, explicit map[st
 	}
 	c.Case("end")
 	c.NCases++
+	// (1b) the same calls once more as a "pcase" block: the implementation's results in the outcome
+	// language of the POSIX specification, compared by ./check with the extracted model (M lines)
+	// and — inside the precondition of C01_simulation — with the extracted specification (S lines)
+	claim := "any"
+	if wellFormed && generated {
+		claim = "wf"
+	}
+	c.Case("pcase p%s mem %s", id, claim)
+	j := 0
+	for i, it := range items {
+		if strings.HasPrefix(it, "snap") || strings.HasPrefix(it, "index") {
+			continue
+		}
+		c.Case("%s", it)
+		c.Impl("p%s#%d %s", id, j, projPosix(it, memOut[i]))
+		j++
+	}
+	c.Case("end")
+	if claim == "wf" {
+		c.Impl("p%s#class wf", id)
+	}
 	if !wellFormed {
 		c.Count("cases.malformed")
 		return
@@ -261,7 +345,7 @@ func runC01(c *Ctx) {
 				continue
 			}
 			// corpus cases are treated as well-formed (the OS oracle runs); perms not compared
-			c01Case(c, t[1], cs[1:len(cs)-1], !strings.HasPrefix(t[1], "mal"), map[string]bool{})
+			c01Case(c, t[1], cs[1:len(cs)-1], !strings.HasPrefix(t[1], "mal"), map[string]bool{}, false)
 		}
 		return
 	}
@@ -274,13 +358,13 @@ func runC01(c *Ctx) {
 	runPathfn(c, pfLen)
 	for i := 0; i < nWF; i++ {
 		items, wf, ex := genC01(c.Rng.Fork(), c.Rng.Range(3, 30), 0)
-		c01Case(c, fmt.Sprintf("w%d", i), items, wf, ex)
+		c01Case(c, fmt.Sprintf("w%d", i), items, wf, ex, true)
 		if i < 2 {
 			c.Sample("case mem: " + strings.Join(items, " ; "))
 		}
 	}
 	for i := 0; i < nMal; i++ {
 		items, wf, ex := genC01(c.Rng.Fork(), c.Rng.Range(3, 30), 150)
-		c01Case(c, fmt.Sprintf("mal%d", i), items, wf, ex)
+		c01Case(c, fmt.Sprintf("mal%d", i), items, wf, ex, true)
 	}
 }
